@@ -381,6 +381,13 @@ class Verifier:
         frame.fn_node = fn
         frame.contract = con
         inputs = {}
+        from . import models as _m
+        eng.assume(_m.isnone_f(_m.none_val))
+        if con.options.get("total_order"):
+            before = len(eng.pc)
+            for ax in _m.total_order_axioms():
+                eng.assume(ax)
+            eng.heavy_axioms = [t.get_id() for t in eng.pc[before:]]
         if con.free:
             parent = Frame(mod, ".".join(con.func.split(".")[:-1]))
             for name, ty in con.free.items():
@@ -527,7 +534,8 @@ class Verifier:
                               detail=f"{cname} raised at line {e.site}; allowed: {sorted(con.raises)}", assume_after=False, frame=frame, extra=env)
                 elif allowed is not None:
                     for j, p in enumerate(con.raises[allowed] or []):
-                        eng.prove(f"{pfx}:raises:{allowed}#{j + 1}", eng.eval_goal(p, frame, extra=env), "raises-post", fn, detail=p, frame=frame, extra=env)
+                        eng.prove(f"{pfx}:raises:{allowed}#{j + 1}", eng.eval_goal(p, frame, extra=env), "raises-post", fn,
+                                  detail=f"{p}  [{cname} raised at line {e.site}]", frame=frame, extra=env)
         except PathEnd:
             return
 
